@@ -3,8 +3,10 @@
 set -u
 S=/verif/seeded/$1; ID=${2:-${1%%-*}}; TIER=${3:-quick}
 cd /repo && git status --porcelain | grep -q . && { echo "/repo dirty"; exit 2; }
+cp /verif/evidence/$ID.json /verif/out/evidence.$ID.bak 2>/dev/null
 git -C /repo apply $S/patch.diff || { echo "APPLY FAILED"; exit 2; }
 cd /verif && ./check $ID $TIER > /verif/out/muttest.$1.$ID.log 2>&1; RC=$?
 git -C /repo checkout -- . ; git -C /repo clean -fdq
+cp /verif/out/evidence.$ID.bak /verif/evidence/$ID.json 2>/dev/null
 grep -E "VIOLATION|MACHINERY|KNOWN-FINDING|violation:" /verif/out/muttest.$1.$ID.log | head -8
 echo "MUTTEST $1 check=$ID tier=$TIER rc=$RC"
